@@ -93,6 +93,11 @@ func c01Workload(ctx *lib.Ctx, nSkel, total int) {
 				spec.QuantDepth = 1 + r.Intn(3)
 			} else {
 				spec.NAtoms = 1 + r.Intn(5)
+				if fam == 0 && r.Intn(3) == 0 {
+					spec.NAtoms = 3 + r.Intn(3)
+					spec.WideOr = true
+					ctx.Count("families_with_wide_or_of_conjunctions", 1)
+				}
 			}
 			w, root := lib.NewWorld(r, spec)
 			// merge world graph into the document graph
